@@ -1035,6 +1035,9 @@ class Interp:
             return TOP
         if ty == 'super':
             return self.model.super_attr(self, st, base, attr, node)
+        if attr == '__getitem__' and ty in ('list', 'tuple', 'dict', 'ndarray', 'Series', 'DataFrame', 'str') and isinstance(node, ast.Attribute):
+            # seq.__getitem__ as a function: f(k) is seq[k]
+            return AV(ty='opcaller', kind='getitem', recv=base, recv_node=node.value, deps=base.deps)
         return self.model.attr(self, st, base, attr, node)
 
     def obj_attr(self, base, attr, frame, st, node):
@@ -1147,6 +1150,11 @@ class Interp:
         if ty == 'opcaller' and len(args) == 1:
             # operator.methodcaller / attrgetter / itemgetter applied to one object
             obj = args[0]
+            if func.kind == 'getitem':
+                syn = ast.Subscript(value=func.recv_node, slice=ast.Name(id='_item', ctx=ast.Load()), ctx=ast.Load())
+                ast.copy_location(syn, n)
+                ast.copy_location(syn.slice, n)
+                return self.model.subscript(self, st, func.recv, obj, syn, frame)
             if func.kind == 'attr':
                 return self.get_attr(obj, func.name, frame, st, n)
             if func.kind == 'method':
@@ -1287,7 +1295,7 @@ class Interp:
             else:
                 open_kw = True
         return AV(ty='dict', kw=kw, elem=join_all(vals) if vals else None, open_kw=open_kw,
-                  deps=self.model.deps_of(vals, {}), fresh=True)
+                  deps=self.model.deps_of(vals, {}), fresh=True, empty_init=True if not n.keys else None)
 
     def e_Starred(self, n, frame, st):
         return self.eval(n.value, frame, st)
